@@ -227,6 +227,12 @@ func (o *parseGetoptOptions) Config() getopt.Config {
 }
 
 func parseGetopt(opts parseGetoptOptions, argsVal vals.List, specsVal vals.List) (vals.List, vals.List, error) {
+	if argsVal == nil {
+		return nil, nil, errs.BadValue{What: "arguments", Valid: "list", Actual: "$nil"}
+	}
+	if specsVal == nil {
+		return nil, nil, errs.BadValue{What: "specs", Valid: "list", Actual: "$nil"}
+	}
 	var args []string
 	err := vals.ScanListToGo(argsVal, &args)
 	if err != nil {
